@@ -581,7 +581,10 @@ class NotchFilterFactory(Transform):
 
     def reset(self):
         super().reset()
-        self.zi = signal.lfilter_zi(self.b, self.a)
+        # Start the filter at rest. `lfilter_zi` is the steady state for a
+        # unit step input; it neither scales with the level nor changes sign
+        # with the polarity of the noise that is being filtered.
+        self.zi = np.zeros(max(len(self.a), len(self.b)) - 1)
 
     def transform(self, samples):
         samples, self.zi = signal.lfilter(self.b, self.a, samples, zi=self.zi)
